@@ -21,7 +21,8 @@ def concrete(kind, rnd):
         return rnd.choice([(a, b), (pairs.hexs(a), pairs.hexs(b))])
     if kind == "fixable":
         a, b = pairs.near_threshold(rnd, rnd.choice((4.5, 7.0)), (0.02, 0.25))
-        return rnd.choice([(a, b), (pairs.hexs(a), pairs.hexs(b)), (f"rgb({a[0]}, {a[1]}, {a[2]})", b)])
+        return rnd.choice([(a, b), (pairs.hexs(a), pairs.hexs(b)), (f"rgb({a[0]}, {a[1]}, {a[2]})", b), (list(a), list(b)), (a, list(b)),
+                           (tuple(str(v) for v in a), b)])
     if kind == "between":       # between the large-text and normal-text requirement: the size flag decides
         a, b = pairs.near_threshold(rnd, 4.5, (0.05, 0.3))
         return (pairs.hexs(a), pairs.hexs(b))
@@ -30,12 +31,14 @@ def concrete(kind, rnd):
         return (a, b)
     if kind == "badtext":
         return (rnd.choice(["notacolor", (300, 0, 0), "rgb(1,2", "", None, "#12", (1, 2), "#777777;", "grey ;", "rgb(119, 119, 119);",
-                            "#777 !important", "white;"]), "#ffffff")
+                            "#777 !important", "white;", ("", "10", "10"), ("255", "255", " "), [1, 2, ""], ("10", "10", "10", ""),
+                            ("\t", "0", "0"), [], (None, None, None), ("1", "2")]), "#ffffff")
     if kind == "badbg":
-        return ("#123456", rnd.choice(["nope", (0, 0, -1), "hsl(", 5 if False else "##"]))
+        return ("#123456", rnd.choice(["nope", (0, 0, -1), "hsl(", "##", ("255", "255", ""), [" ", 1, 1], ("", "", "")]))
     if kind == "translucent":
         a, b = pairs.near_threshold(rnd, 4.5, (0.0, 0.4))
-        return rnd.choice([(f"rgba({a[0]}, {a[1]}, {a[2]}, 0.8)", b), ((a[0], a[1], a[2], 0.6), pairs.hexs(b))])
+        return rnd.choice([(f"rgba({a[0]}, {a[1]}, {a[2]}, 0.8)", b), ((a[0], a[1], a[2], 0.6), pairs.hexs(b)), ([a[0], a[1], a[2], 0.6], list(b)),
+                           (pairs.hexs(a), f"rgba({b[0]}, {b[1]}, {b[2]}, 0.5)")])
     if kind == "extreme":      # text that cannot move further away from its background; label often between the levels
         g = rnd.randrange(70, 190)
         a = rnd.choice([(0, 0, 0), (255, 255, 255)])
@@ -87,8 +90,21 @@ def _beh(job):
     ops.append(["bulk", enc_list, mode, not vr, False])
     ops.append(["bulk", list(reversed(enc_list)), mode, vr, False])
     ops.append(["bulk", enc_list, (mode + 1) % 3, vr, False])
+    if seed % 3 == 0:
+        # the report option must not change what is returned (the file goes to a scratch working directory)
+        ops.append(["bulk", enc_list, mode, vr, True])
     singles()
-    return apirec.run_ops(ops), ents
+    import tempfile, shutil
+    cwd0 = os.getcwd()
+    tmp = tempfile.mkdtemp(prefix="verif_c12_")
+    try:
+        os.chdir(tmp)
+        import io, contextlib
+        with contextlib.redirect_stdout(io.StringIO()):      # "Report generated: ..." lines are C17's business
+            return apirec.run_ops(ops), ents
+    finally:
+        os.chdir(cwd0)
+        shutil.rmtree(tmp, ignore_errors=True)
 
 
 def main():
